@@ -15,6 +15,11 @@ def run(rep, kf, tier, seed):
     _eb.discharge(rep, kf, [cmp_.const_build_contract()], "C14", tier, seed)
     import contracts.enum_values as cev
     discharge_parallel(rep, kf, [cev.values_contract()], "C14", tier, seed)
+    # two enumerations never share one generated class unless their member tables are equal (names AND values): otherwise a
+    # listed value of one of them would be rejected by the class generated for the other
+    import contracts.registration as creg
+    from pyvc import engine_b as _eb
+    _eb.discharge(rep, kf, [creg.enum_build_contract(False), creg.enum_build_contract(True)], "C14", tier, seed)
     run_bounded(rep, kf, "C14", ["enum_values", "enum_default"], tier)
     rep.trusted.extend(["CPython semantics of the supported subset as encoded in pyvc.symexec",
                         "enum.Enum(value) lookup: the member with that value or ValueError (symbolic construct)"]
